@@ -217,14 +217,16 @@ def d_scope(F, R):
         ok_closes = [c for c in closes if not on_error_path(c)]
         ko = sorted(key_of(c) for c in opens)
         kc = sorted(key_of(c) for c in ok_closes)
-        R.ob("D-SCOPE", f["path"], ko == kc, F.loc(f), "scope frames opened %s vs closed on the Ok path %s (every add_scope needs its pop_scope, loops over the same iteration list pair up)" % (ko, kc))
+        # frames closed in a helper (or opened in one) are not paired by this clause: only a function that opens and closes
+        # frames itself and closes a different number is evidence; EXPAND-EQUIV and TYPE-SOUND decide the scoping by evaluation
+        R.ob("D-SCOPE", f["path"], ko == kc, F.loc(f), "scope frames opened %s vs closed on the Ok path %s (every add_scope needs its pop_scope, loops over the same iteration list pair up)" % (ko, kc), undecided=(not ko or not kc))
         # loop variables are declared after the frame is opened
         for o in opens:
             decl = [x for x in walk(f["body"]) if x.get("k") == "MCall" and x["name"] in ("declare_variable", "add_token_type") and x.get("l", 0) >= o.get("l", 0)]
             early = [x for x in walk(f["body"]) if x.get("k") == "MCall" and x["name"] in ("declare_variable", "add_token_type") and x.get("l", 0) < o.get("l", 0) and key_of(x) == key_of(o)]
             if decl or early:
                 R.ob("D-SCOPE", f["path"] + ":declare-after-open@" + key_of(o), not early, F.loc(f, o), "iteration variables must be declared in the new frame (after add_scope): %d declared before it" % len(early))
-    R.ob("D-SCOPE", "functions", n_fn >= 6, "", "expected at least 6 functions opening scopes, found %d" % n_fn)
+    R.ob("D-SCOPE", "functions", n_fn >= 6, "", "expected at least 6 functions opening scopes, found %d" % n_fn, undecided=True)
 
 
 def w_order(F, R):
